@@ -868,6 +868,7 @@ pub fn run_conc(what: &str, seed: u64, tier: &str, outdir: &str) {
                 i += 1;
             }
             for (p, w) in &e.violations {
+                let w: String = w.chars().map(|c| if c == '\n' || c == '\r' || c == '\t' { ' ' } else { c }).collect();
                 oracle.push(format!("{}\t{}\t{}\t{}", *case, first_line, p, w));
             }
             let races = e.trace.iter().filter(|(_, ev)| matches!(ev, Ev::Note(Note::Lost { .. }))).count();
